@@ -685,4 +685,57 @@ theorem run2c_inv (tab : Nat → Content) : ∀ (ops : List Op2) (w w' : W2), Ta
       exact ⟨i2, d1.trans c1, d2.trans c2⟩
     · simp at h
 
+
+/-! ### towards roll-backs of a compact aggregator: the run-compressed reading of one stored entry -/
+
+/-- an entity's stored form never returns to an earlier value: between two source versions with the same stored form,
+    every version of the entity has that form (excludes exactly A → B → A) -/
+def NoReturn (tab : Nat → Content) (c : Bool) (H : List Entry) : Prop :=
+  ∀ h1 ∈ H, ∀ h2 ∈ H, ∀ h3 ∈ H, sameKey h1 h2 = true → sameKey h2 h3 = true → h1.ver ≤ h2.ver → h2.ver ≤ h3.ver →
+    storedAs tab c h1.k = storedAs tab c h3.k → storedAs tab c h2.k = storedAs tab c h1.k
+
+/-- the stored entry `a` stands for a RUN of source versions: it starts at a genuine source version of its entity whose
+    stored form is `a.k`, and every source version of the entity from there up to `L` has that same stored form -/
+def Covers (tab : Nat → Content) (c : Bool) (H : List Entry) (a : Entry) (L : Int) : Prop :=
+  (∃ h ∈ H, sameKey a h = true ∧ a.ver = h.ver ∧ storedAs tab c h.k = some a.k) ∧
+  ∀ h' ∈ H, sameKey h' a = true → a.ver ≤ h'.ver → h'.ver ≤ L → storedAs tab c h'.k = some a.k
+
+/-- the skip extends the run: the journal holds `a`, a source event `he` of the same entity arrives whose stored form
+    equals `a.k` (so `applyUpdate` skips it and keeps `a` with its old version) — also when versions between the old
+    bound and `he` were never seen (latest-only delivery), and also when `a` is a STALE entry reloaded from an old file.
+    Under `NoReturn` the kept entry covers everything up to `he.ver`. -/
+theorem covers_skip (tab : Nat → Content) (c : Bool) (H : List Entry) (hnr : NoReturn tab c H) (a he : Entry) (L : Int)
+    (hc : Covers tab c H a L) (heH : he ∈ H) (hk : sameKey he a = true) (hv : a.ver ≤ he.ver)
+    (hf : storedAs tab c he.k = some a.k) : Covers tab c H a he.ver := by
+  obtain ⟨⟨h, hh, kah, vah, fh⟩, _⟩ := hc
+  refine ⟨⟨h, hh, kah, vah, fh⟩, ?_⟩
+  intro h' hh' kh' v1 v2
+  have k1 : sameKey h h' = true :=
+    sameKey_trans _ _ _ (by rw [sameKey_symm]; exact kah) (by rw [sameKey_symm]; exact kh')
+  have k2 : sameKey h' he = true := sameKey_trans _ _ _ kh' (by rw [sameKey_symm]; exact hk)
+  have := hnr h hh h' hh' he heH k1 k2 (by omega) v2 (by rw [fh, hf])
+  rw [this, fh]
+
+/-- a restart only lowers the bound (loaderVersion) and drops entries: what is kept still covers its (shorter) run -/
+theorem covers_shrink (tab : Nat → Content) (c : Bool) (H : List Entry) (a : Entry) (L L' : Int)
+    (hc : Covers tab c H a L) (hl : L' ≤ L) : Covers tab c H a L' :=
+  ⟨hc.1, fun h' hh' k v1 v2 => hc.2 h' hh' k v1 (Int.le_trans v2 hl)⟩
+
+/-- restart, then the skip of the entity's current source version: the stale entry that survived in the old file
+    covers the entity's whole run again — this is the step that fails without `NoReturn` (the known finding) -/
+theorem covers_restart_then_skip (tab : Nat → Content) (c : Bool) (H : List Entry) (hnr : NoReturn tab c H) (a he : Entry)
+    (L L' : Int) (hc : Covers tab c H a L) (hl : L' ≤ L) (heH : he ∈ H) (hk : sameKey he a = true) (hv : a.ver ≤ he.ver)
+    (hf : storedAs tab c he.k = some a.k) : Covers tab c H a he.ver :=
+  covers_skip tab c H hnr a he L' (covers_shrink tab c H a L L' hc hl) heH hk hv hf
+
+/-- a freshly stored entry covers its own version -/
+theorem covers_fresh (tab : Nat → Content) (c : Bool) (H : List Entry) (h : Entry) (hh : h ∈ H) (hw : h = mkEntry tab h.ver h.k)
+    (hkey : TabOK tab c) (f : Nat) (hf : storedAs tab c h.k = some f)
+    (huniq : ∀ h' ∈ H, sameKey h' h = true → h'.ver = h.ver → h' = h) : Covers tab c H (mkEntry tab h.ver f) h.ver := by
+  have ks := stored_sameKey tab c hkey h hw f hf h.ver
+  refine ⟨⟨h, hh, ks, rfl, hf⟩, ?_⟩
+  intro h' hh' k v1 v2
+  have : h' = h := huniq h' hh' (sameKey_trans _ _ _ k ks) (by simp only [mkEntry] at v1; omega)
+  rw [this]; exact hf
+
 end SH.C20
